@@ -16,8 +16,7 @@ RULE = ("requests `enc (str|bin ...) <packet> <pos> <items>`; all ten character 
         "referenced values 0,1,7,8,9,16,255, calibrated float references, lookup tables with 0-valued and overlapping "
         "entries; non-trivial = a value is produced; distinct = distinct request line")
 ASSUMPTIONS = ["CPython's codecs are as modelled in lean/Spp/Model/Text.lean (validated on every run, plus a separate "
-               "decoder stream of adversarial byte strings)", "UTF-16/UTF-32 without BE/LE suffix decode with BOM detection, "
-               "else little-endian (the platform order); a declared byteOrder is not consulted by the library (see C09)"]
+               "decoder stream of adversarial byte strings)", "UTF-16/UTF-32 without BE/LE suffix decode in the declared byteOrder (after fix in /repo)"]
 MODEL_IS_SPEC = True
 ENCODINGS = ['US-ASCII', 'ISO-8859-1', 'Windows-1252', 'UTF-8', 'UTF-16', 'UTF-16LE', 'UTF-16BE', 'UTF-32', 'UTF-32LE',
              'UTF-32BE']
@@ -77,12 +76,15 @@ def generate(rng, tier):
             fixed = "8"
         delim = rng.choice(["whole", "term", "leading"])
         term, lead = "-", "-"
-        body = sample_text(rng, enc)
+        bo_name = rng.choice(["mostSignificantByteFirst", "leastSignificantByteFirst"])
+        codec = PYCODEC[enc]
+        if enc in ("UTF-16", "UTF-32"):
+            codec += "-le" if bo_name == "leastSignificantByteFirst" else "-be"
+        body = sample_text(rng, enc) if enc not in ("UTF-16", "UTF-32") else rng.choice(["A", "Hi", "é"]).encode(codec)
         if delim == "term":
-            tch = "\x00".encode(PYCODEC[enc].replace("utf-16", "utf-16-le").replace("utf-32", "utf-32-le")
-                                if enc in ("UTF-16", "UTF-32") else PYCODEC[enc])
+            tch = "\x00".encode(codec)
             if rng.random() < 0.3:
-                tch = "X".encode(PYCODEC[enc] if enc not in ("UTF-16", "UTF-32") else PYCODEC[enc] + "-le")
+                tch = "X".encode(codec)
             term = hx(tch)
             payload = body + (tch if rng.random() < 0.85 else b"") + rng.randbytes(rng.randrange(0, 3))
         elif delim == "leading":
@@ -123,7 +125,7 @@ def generate(rng, tier):
             elif lk != "-":
                 for d in lk:
                     d[2] = rng.choice([f"f{want}/1", f"i{want}"])
-        bo = S(rng.choice(["mostSignificantByteFirst", "leastSignificantByteFirst"])) if enc in ("UTF-16", "UTF-32") else "-"
+        bo = S(bo_name) if enc in ("UTF-16", "UTF-32") else "-"
         e = ["str", S(enc), fixed, ref, lk, uc, adj, term, lead, bo]
         yield f"enc {sx(e)} {hx(data)} {pos} {sx(items)}", f"string-{delim}"
     # decoder stream: adversarial byte strings through the whole-buffer path (validates the codec model)
@@ -222,6 +224,8 @@ def oracle(line, out):
     padded = field + "0" * (-n % 8)
     buf = int(padded or "0", 2).to_bytes(len(padded) // 8, "big")
     enc = PYCODEC[xbuild.uS(e[1])]
+    if xbuild.uS(e[1]) in ("UTF-16", "UTF-32") and len(e) > 9 and e[9] != "-":
+        enc += "-le" if xbuild.uS(e[9]) == "leastSignificantByteFirst" else "-be"
     term, lead = e[7], e[8]
     try:
         if lead != "-" and int(lead) != 0:
